@@ -90,8 +90,39 @@ func runC20(c *engine.Ctx) {
 		}
 	})
 	if c.Mine() {
+		// messages made only of payloads the library skips (unsupported, not critical): the decoded payload list
+		// is empty while the header's bookkeeping still covers the received octets
+		for _, types := range [][]uint8{{1}, {32}, {49}, {255}, {54, 200}, {1, 2, 3}} {
+			for _, n := range []int{0, 1, 9} {
+				h := univ.BaseHdr
+				h.Exch = 37
+				var ps []ref.Payload
+				for i, t := range types {
+					ps = append(ps, ref.Payload{T: t, Data: univ.Pat(n, int(t)+i)})
+				}
+				if b, err := ref.Encode(ref.Msg{H: h, P: ps}, ref.Lib{}); err == nil {
+					c20Decode(c, c20Case{K: "decode", Name: "only-unsupported-payloads"}, b)
+				}
+			}
+		}
+		c20Decode(c, c20Case{K: "decode", Name: "bare-header"}, func() []byte { b, _ := ref.Encode(ref.Msg{H: univ.BaseHdr}, ref.Lib{}); return b }())
 		for _, b := range c20ForeignAKA() {
 			c20Decode(c, c20Case{K: "decode", Name: "foreign-aka-attributes"}, b)
+		}
+	}
+	// messages whose fields are not in encodable form as they stand (address lengths that do not match the
+	// selector type, as net.ParseIP yields for dotted quads): whatever Encode answers, the payloads stay as they are
+	if c.Mine() {
+		mapped := append(append(make([]byte, 10), 0xff, 0xff), 10, 0, 0, 1)
+		mapped2 := append(append(make([]byte, 10), 0xff, 0xff), 10, 0, 0, 200)
+		v6 := append([]byte{0x20, 0x01}, univ.Pat(14, 3)...)
+		for i, ad := range [][2][]byte{{mapped, mapped2}, {v6, v6}, {{10, 0, 0, 1}, mapped2}, {mapped, {10, 0, 0, 9}}, {{}, {}}, {{1, 2, 3}, {1, 2, 3, 4, 5}}} {
+			for _, ty := range []uint8{7, 8} {
+				for _, pt := range []uint8{ref.PTSi, ref.PTSr} {
+					mm := ref.Msg{H: univ.BaseHdr, P: []ref.Payload{{T: pt, TS: []ref.Selector{{Type: ty, Proto: 6, SPort: 1, EPort: 2, SAddr: ad[0], EAddr: ad[1]}}}}}
+					c20Encode(c, c20Case{K: "encode", Name: fmt.Sprintf("TS.addrlen-mismatch=%d/%d", i, ty), M: &mm})
+				}
+			}
 		}
 	}
 	// encode / protect / unprotect side over the universe
@@ -146,6 +177,25 @@ func c20Decode(c *engine.Ctx, cs c20Case, in []byte) {
 		return
 	}
 	d0 := dumpMsg(m)
+	// what the decoded message encodes to must not depend on the receive buffer either (bookkeeping kept in the
+	// header may still point into it)
+	var encBefore []byte
+	var encErr error
+	if pi := engine.Catch(func() { encBefore, encErr = m.Encode() }); pi != nil {
+		// outside the listed properties (C12 speaks about decoded messages that *do* encode again); same note as C12
+		c.Note("encode-panics-on-decoded-value:" + pi.Sig())
+		encErr = fmt.Errorf("panic")
+	}
+	encBefore = append([]byte(nil), encBefore...)
+	if encErr == nil && len(m.Payloads) == 0 && len(encBefore) != 28 {
+		c.Violate("decoded-empty-message-encodes-payload-octets", fmt.Sprintf("%s: the decoded message has no payloads but encodes to %d octets", cs.Name, len(encBefore)), cs)
+		return
+	}
+	// decode again: the Encode above must not have disturbed anything the alias / overwrite clauses look at
+	m = new(message.IKEMessage)
+	if err = m.Decode(b); err != nil {
+		return
+	}
 	for _, fill := range []int{0x00, 0xff, -1} {
 		for i := range buf {
 			if fill < 0 {
@@ -158,15 +208,25 @@ func c20Decode(c *engine.Ctx, cs c20Case, in []byte) {
 			c.Violate("decoded-message-changes-with-input-buffer", fmt.Sprintf("%s: overwriting the receive buffer changes the decoded message", cs.Name), cs)
 			return
 		}
+		if encErr == nil {
+			var e2 []byte
+			var err2 error
+			engine.Catch(func() { e2, err2 = m.Encode() })
+			if err2 != nil || !bytes.Equal(e2, encBefore) {
+				c.Violate("decoded-message-encoding-changes-with-input-buffer", fmt.Sprintf("%s: the decoded message encodes to %x… before and %x… after the receive buffer was overwritten", cs.Name, trunc(encBefore, 40), trunc(e2, 40)), cs)
+				return
+			}
+		}
 	}
 	// a decoded message re-encodes to the same bytes whatever the map iteration order (decoded EAP-AKA' packets
 	// can hold attribute types that no setter accepts)
-	if engine.InstrumentedBuild() && decodedHasAKA(m) {
+	if engine.InstrumentedBuild() && decodedHasAKA(m) && encErr == nil {
 		var first []byte
 		bad := false
 		execs, _ := engine.ForAllMapOrders(5000, func([]int) {
-			bx, ex := m.Encode()
-			if ex != nil {
+			var bx []byte
+			var ex error
+			if pi := engine.Catch(func() { bx, ex = m.Encode() }); pi != nil || ex != nil {
 				return
 			}
 			if first == nil {
@@ -263,6 +323,11 @@ func c20Encode(c *engine.Ctx, cs c20Case) {
 		return
 	}
 	if err != nil {
+		// an Encode that refuses the message must leave it alone as well
+		if engine.Dump(&lm.Payloads) != pd0 {
+			c.Violate("encode-alters-payloads/refused-message", fmt.Sprintf("%s: Encode returns an error (%s) and a payload differs afterwards", cs.Name, errStr(err)), cs)
+		}
+		c.Count("encode_refused", 1)
 		return
 	}
 	c.Transitions++
@@ -324,6 +389,38 @@ func c20Encode(c *engine.Ctx, cs c20Case) {
 			return
 		}
 		c20PrevC = &c20Held{name: cs.Name + "(container)", m: m, wire: cb, want: append([]byte(nil), cb...)}
+	}
+	// the encoding is a function of the message (header fields + payload list), not of what earlier Encode calls
+	// left behind: change the list and compare with a freshly built message holding the same list
+	for variant := 0; variant < 2; variant++ {
+		nm := ref.Msg{H: m.H}
+		lx, err := univ.Build(m)
+		if err != nil {
+			break
+		}
+		if _, err := lx.Encode(); err != nil {
+			break
+		}
+		if variant == 0 {
+			lx.Payloads.Reset()
+		} else {
+			if len(m.P) < 2 {
+				break
+			}
+			lx.Payloads = lx.Payloads[1:]
+			nm.P = m.P[1:]
+		}
+		fresh, err := univ.Build(nm)
+		if err != nil {
+			break
+		}
+		var bx, bf []byte
+		var ex, ef error
+		engine.Catch(func() { bx, ex = lx.Encode(); bf, ef = fresh.Encode() })
+		if (ex == nil) != (ef == nil) || !bytes.Equal(bx, bf) {
+			c.Violate("encoding-depends-on-earlier-encode", fmt.Sprintf("%s: after Encode, with the payload list changed (variant %d), the message encodes to %x… (err %v); a freshly built message with the same header and list encodes to %x… (err %v)", cs.Name, variant, trunc(bx, 48), ex, trunc(bf, 48), ef), cs)
+			return
+		}
 	}
 	c20Prev = &c20Held{name: cs.Name, m: m, wire: b2, want: want}
 	h := engine.Hash64([]byte(pd0))
